@@ -32,7 +32,7 @@ def bounds(tier):
     return {"lower_bound": (f"k<=4, sums 0..5, remaining total 0..8" if q else "k<=4: sums 0..7, remaining 0..14; k=5: sums 0..7, remaining 0..10; k=6: sums 0..4, remaining 0..10")
                            + "; plus vectors near 2**32 (k=2..3" + ("" if q else "..4") + "); three containers, flag on/off, all permutations for k<=3; five objectives",
             "generate_tree": f"values 0..3, 1..{5 if q else 7} items" + ("" if q else "; values {0,1,2,5,9}, 1..6 items") + ", all half-integer windows from -0.5 to total+0.5",
-            "all_combinations": f"k<=3 with bin contents in {{(),(1),(2),(1,1)}}, k=4 with {{(),(1),(2)}}" + ("" if q else ", k=5 with {(),(1),(2)}, k=6 with {(),(1)}") + "; both managers"}
+            "all_combinations": f"k<=3 with bin contents in {{(),(1),(2),(1,1)}}, k=4 with {{(),(1),(2)}}" + (", k=5 with {(),(1),(2)} (first array sorted)" if q else ", k=5 with {(),(1),(2)}, k=6 with {(),(1)}") + "; both managers"}
 
 
 def tasks(tier):
@@ -54,9 +54,13 @@ def tasks(tier):
     if not q:
         for ch in spaces.chunked(spaces.multisets((0, 1, 2, 5, 9), 1, 6), 6):
             ts.append(("generate_tree", None, ch, None))
-    combos = [(1, 4), (2, 4), (3, 4), (4, 3)] + ([] if q else [(5, 3), (6, 2)])
+    combos = [(1, 4), (2, 4), (3, 4), (4, 3)] + ([(5, -3)] if q else [(5, 3), (6, 2)])
     for k, nopt in combos:
-        firsts = list(product(range(nopt), repeat=k))
+        if nopt < 0:       # quick: five bins, first array over sorted choices only (the pairing set is symmetric in the first array's order)
+            nopt = -nopt
+            firsts = [tuple(c) for c in spaces.multisets(range(nopt), k, k)]
+        else:
+            firsts = list(product(range(nopt), repeat=k))
         for ch in spaces.chunked(firsts, 4 if k >= 4 else 16):
             ts.append(("all_combinations", k, ch, nopt))
     return ts
@@ -142,6 +146,19 @@ def _check_tree(acc, values):
                               f"missing={[sorted(s) for s in (want - got)]}", f"extra={[sorted(s) for s in (got - want)]} dupitems={dup_inside}", case)
             acc.check()
             acc.point(nontrivial=(0 < sum(want.values()) < len(subsets)))
+            # the same items as plain values (equal values are then indistinguishable items): one yield per INDEX subset
+            if len(set(values)) < n:
+                wantv = Counter(tuple(sorted(values[i] for i in c)) for r in range(n + 1) for c in combinations(range(n), r)
+                                if lb <= sum(values[i] for i in c) <= ub)
+                t = repo.tree_mod.InExclusionBinTree(items=list(values), valueof=lambda x: x, upper_bound=ub, lower_bound=lb)
+                acc.ran("generate_tree")
+                try:
+                    gotv = Counter(tuple(sorted(y)) for y in t.generate_tree())
+                except Exception as e:
+                    acc.violation("generate_tree", "plain-values", f"{values};[{lb},{ub}]", "raises", "subsets", f"{type(e).__name__}: {e}", dict(case, plain=True)); continue
+                if gotv != wantv:
+                    acc.violation("generate_tree", "plain-values", f"{values};[{lb},{ub}]", "wrong_enumeration",
+                                  f"missing={sorted((wantv - gotv).elements())[:4]}", f"extra={sorted((gotv - wantv).elements())[:4]}", dict(case, plain=True))
     acc.outcome(("tree", n, total))
 
 
